@@ -91,6 +91,29 @@ def specialise_all(fn, assignments):
     return resolve_bool_temps(fn, cut, fold=fold)
 
 
+def specialise_joint(fn, assignments):
+    """like specialise_all, but a test that mentions several of the selected subterms is decided with all of them set at
+    once (`(cluster >= 2) != (size != 0)` needs both)"""
+    def fold(t):
+        for pred, val in assignments:
+            t = _subst_pred(t, pred, val)
+        return _fold(t)
+    cut = []
+    for (gb, gi, g) in all_guards(fn):
+        if not any(has_sub(g.term, pred) for pred, _v in assignments):
+            continue
+        v = fold(g.term)
+        if v is None:
+            continue
+        if g.kind == "bool" and bool(v) != g.truth:
+            cut.append((gb, gi))
+        elif g.kind == "value" and v != g.value:
+            cut.append((gb, gi))
+        elif g.kind == "notvalues" and v in g.others:
+            cut.append((gb, gi))
+    return resolve_bool_temps(fn, cut, fold=lambda t: fold(t) if any(has_sub(t, pred) for pred, _v in assignments) else None)
+
+
 def compared_constants(fn, pred):
     """integer constants that terms containing the pred-subterm are compared with / switched on"""
     out = set()
